@@ -173,6 +173,9 @@ func NewContext(api *API, name string, fresh bool, cfgs map[configv1alpha1.Confi
 	if cfgs != nil {
 		mc.MockConfigs().SetConfigs(cfgs)
 	}
+	if err := mc.MockConfigs().Start(context.Background()); err != nil {
+		panic(err)
+	}
 	set := NewInformerSet(api, name, fresh)
 	return &Context{
 		Context: mc,
